@@ -16,3 +16,54 @@ Proof.
   - intros [img H]. discriminate.
   - intros H. lia.
 Qed.
+
+(* ---- the images the theorems speak about ---------------------------------- *)
+(* the seven raw widths of core/src/pixelcolor/raw/mod.rs (RawU1 .. RawU32) *)
+Definition bpp_ok (bpp : Z) : Prop := In bpp [1; 2; 4; 8; 16; 24; 32].
+
+(* an image as `ImageRaw::new` returns it: data of exactly the required length; extents within 2^29
+   (the range in which the unbounded model and the u32/usize arithmetic coincide) *)
+Definition img_ok (img : image_raw) : Prop :=
+  bpp_ok (ir_bpp img) /\ size_ok (ir_size img) /\
+  Z.of_nat (length (ir_data img)) = bytes_per_row (sw (ir_size img)) (ir_bpp img) * sh (ir_size img).
+
+Ltac bpp_cases H :=
+  unfold bpp_ok in H; cbn [In] in H;
+  destruct H as [H|[H|[H|[H|[H|[H|[H|[]]]]]]]]; symmetry in H.
+
+Lemma raw_new_img_ok bpp alt data s img :
+  bpp_ok bpp -> size_ok s -> raw_new bpp alt data s = inl img -> img_ok img.
+Proof.
+  intros Hb Hs. unfold raw_new. destruct (Z.of_nat (length data) =? _) eqn:E; cbn [negb]; [|discriminate].
+  intros H. inversion H; subst. unfold img_ok. cbn [ir_bpp ir_size ir_data]. repeat split; try assumption; try apply Hs. lia.
+Qed.
+
+(* number of whole pixels in a buffer *)
+Definition pixel_count (bpp : Z) (data : list Z) : Z :=
+  if bpp <? 8 then Z.of_nat (length data) * (8 / bpp) else Z.of_nat (length data) / (bpp / 8).
+
+(* evaluate the closed constants that appear once bpp is one of the seven literals *)
+Ltac norm_consts :=
+  change (8 / 1) with 8 in *; change (8 / 2) with 4 in *; change (8 / 4) with 2 in *;
+  change (16 / 8) with 2 in *; change (24 / 8) with 3 in *; change (32 / 8) with 4 in *;
+  change (1 <? 8) with true in *; change (2 <? 8) with true in *; change (4 <? 8) with true in *;
+  change (8 <? 8) with false in *; change (16 <? 8) with false in *; change (24 <? 8) with false in *;
+  change (32 <? 8) with false in *;
+  change (8 =? 8) with true in *; change (16 =? 8) with false in *; change (24 =? 8) with false in *;
+  change (32 =? 8) with false in *;
+  cbv iota in *.
+
+(* the raw iterator does not end before pixel_count items *)
+Lemma raw_load_some bpp alt data i :
+  bpp_ok bpp -> 0 <= i < pixel_count bpp data -> raw_load bpp alt data i <> None.
+Proof.
+  intros Hb Hi. unfold raw_load, pixel_count, bit_position, get_byte in *.
+  bpp_cases Hb; subst bpp; norm_consts.
+  1-3: (match goal with |- context [nth_error ?l ?n] => destruct (nth_error l n) eqn:G end;
+        [discriminate| apply nth_error_None in G; exfalso; lia]).
+  - match goal with |- context [nth_error ?l ?n] => destruct (nth_error l n) eqn:G end;
+        [discriminate| apply nth_error_None in G; exfalso; lia].
+  - rewrite skipn_length. destruct (_ <=? _) eqn:E1; [|exfalso; lia]. destruct (_ <=? _) eqn:E2; [discriminate|exfalso; lia].
+  - rewrite skipn_length. destruct (_ <=? _) eqn:E1; [|exfalso; lia]. destruct (_ <=? _) eqn:E2; [discriminate|exfalso; lia].
+  - rewrite skipn_length. destruct (_ <=? _) eqn:E1; [|exfalso; lia]. destruct (_ <=? _) eqn:E2; [discriminate|exfalso; lia].
+Qed.
